@@ -614,14 +614,22 @@ static int sbdf_read_valuearray_int(FILE* file, sbdf_valuearray** handle)
 		break;
 	case SBDF_RUNLENGTHENCODINGTYPEID:
 		{
-			if (handle)
+			int v;
+
+			/* the row count precedes the runs, also when skipping */
+			err = sbdf_read_int32(file, &v);
+			if (err)
 			{
-				err = sbdf_read_int32(file, &(*handle)->value1);
-				if (err)
+				if (handle)
 				{
 					sbdf_va_destroy(*handle);
-					return err;
 				}
+				return err;
+			}
+
+			if (handle)
+			{
+				(*handle)->value1 = v;
 
 				err = sbdf_obj_read_arr(file, byte_vt, &(*handle)->object1);
 			}
